@@ -42,7 +42,13 @@ extern _Bool wb_thrown;   /* models a pending std::exception (WBAssertThrow / th
 #define wb_tanh tanh
 #define wb_hypot hypot
 #else
+#ifdef WB_FRAME_ONLY
+/* frame-only units: index/capacity conditions are assumed (executions with undefined behaviour are outside the frame
+ * statement), so that the unconstrained harness does not produce hundreds of irrelevant failing assertions */
+#define WB_ASSERT(c, msg) __CPROVER_assume(c)
+#else
 #define WB_ASSERT(c, msg) __CPROVER_assert(c, msg)
+#endif
 double __CPROVER_uninterpreted_sqrt(double);
 double __CPROVER_uninterpreted_exp(double);
 double __CPROVER_uninterpreted_sin(double);
@@ -111,7 +117,11 @@ static inline int wb_abs_int(int x) { return x < 0 ? -x : x; }
 static inline size_t wb_idx(size_t i, size_t n) { WB_ASSERT(i < n, "vector index within size"); return i; }
 #else
 /* a macro, not a function: every function call costs DFCC write-set plumbing (index expressions are side-effect free) */
+#ifdef WB_FRAME_ONLY
+#define wb_idx(i, n) ((void)__CPROVER_assume((size_t)(i) < (size_t)(n)), (size_t)(i))
+#else
 #define wb_idx(i, n) ((void)__CPROVER_assert((size_t)(i) < (size_t)(n), "vector index within size"), (size_t)(i))
+#endif
 #endif
 #define WB_VEC_SHIMS(NAME, T)                                                                           \
   static inline void NAME##_push(struct NAME *v, T x)                                                   \
